@@ -209,6 +209,17 @@ CHECKS["C12"]["engine"] = "E3+E2"
 CHECKS["C12"]["technique"] += "; plus stateless model checking of two datagrams in flight (scenarios S5, S5c)"
 CHECKS["C17"]["text"] += " Irrelevant-request-option closure: a base request (full parameter request list) is repeated with every other option code (incl. the plugin's own, four payload shapes); the plugin's options in the reply must not change."
 CHECKS["C19"]["text"] += " The state graphs of range and prefix (as in C02/C08: requests, restarts, aging) are explored breadth-first within a time budget for panics of an accepted configuration."
+# ---- additions of seed round 12
+CHECKS["C01"]["text"] += " E2: the DHCPv4 and DHCPv6 Serve loops run as two threads of one controlled execution (a few datagrams each, also garbage) under all schedules up to 1 (thorough 2) preemptions: no panic, no deadlock."
+CHECKS["C07"]["text"] += " A burst of 40 000 hinted allocations in a row (hints descending from the top of 65 536-block pools) is honoured throughout."
+CHECKS["C08"]["text"] += " Quota sweep: one client collects up to 40 prefixes bottom-up on a 64-block pool while another keeps asking for further prefixes. E2 scenario S1e (relayed solicit with two hinted IA_PDs + a direct solicit)."
+CHECKS["C10"]["text"] += " Binding run large-then-small: a 24 MiB rewrite followed 60 ms later by a small one; once the small file's mapping is served it must stay."
+CHECKS["C13"]["text"] += " A synthetic plugin registered under the name of each of the 15 built-in plugins is placed at every position of a 3-chain (names do not influence order)."
+CHECKS["C14"]["text"] += " Server Identifier variants include the own identifier with one field changed (time octets of a DUID-LLT, hardware type, last address bit)."
+CHECKS["C15"]["text"] += " The request's message type also ranges over INFORM, DECLINE, RELEASE, OFFER, ACK and 13: whatever is answered follows the same cascade."
+CHECKS["C16"]["text"] += " Scenario S1e: a relayed solicit with two hinted IA_PDs and a direct solicit."
+CHECKS["C18"]["text"] += " Single unquoted tokens that YAML types as floats, large integers or booleans are arguments exactly as written."
+CHECKS["C20"]["text"] += " Held results: returned addresses are kept across 300 further calls and fed back as bases; they keep their value."
 ALL = ["C%02d" % i for i in range(1, 21)]
 NA_REASON = "check not built yet in this session (planned, see DESIGN.md section 5); will be claimed once its machinery exists"
 m = {
